@@ -111,6 +111,8 @@ fn run_fault_enumeration(scn: &Scenario) -> RunOut {
     let calls: Vec<store::FaultableCall> = calls.lock().unwrap().clone();
     let s = store_of(scn);
     let mut rng = simrt::rng::Rng::stream(scn.seed, "fault-positions");
+    let mut burst_rng = simrt::rng::Rng::stream(scn.seed, "fault-episodes");
+    let episodes = burst_rng.one_in(3);
     let mut positions: Vec<usize> = (0..calls.len()).collect();
     let cap = s.max_crash_points as usize;
     if cap > 0 && positions.len() > cap {
@@ -151,15 +153,34 @@ fn run_fault_enumeration(scn: &Scenario) -> RunOut {
             IoOp::Stat => (*rng.pick(&[libc::EIO, libc::ENOMEM]), 0),
             _ => (*rng.pick(&[libc::EMFILE, libc::EIO]), 0),
         };
-        let mut one = scn.clone();
-        if let Body::Store(st) = &mut one.body {
-            st.fault = Some((c.index, errno, mode));
+        let mut variants = vec![(errno, mode)];
+        // in a third of the workloads every position is also the start of an episode: 1-3 further
+        // calls fail as well, either a full disk (writes and creates fail with ENOSPC, the rest
+        // works) or a failing device (every call fails with EIO)
+        if episodes {
+            let extra = 1 + burst_rng.below(3) as u8;
+            let needs_space = matches!(c.op, IoOp::Write | IoOp::Create | IoOp::OpenWriteExisting);
+            if needs_space && burst_rng.one_in(2) {
+                variants.push((libc::ENOSPC, 0x80 | (extra << 4) | (burst_rng.below(2) as u8 & if c.op == IoOp::Write { 1 } else { 0 })));
+            } else {
+                variants.push((libc::EIO, extra << 4));
+            }
         }
-        let out = run_sim(&one, |ctx, scn| store::run_fault_one(ctx, store_of(scn)));
-        let bad = !out.violations.is_empty();
-        merge_out(&mut total, out);
+        let mut bad = false;
+        for (errno, mode) in variants {
+            let mut one = scn.clone();
+            if let Body::Store(st) = &mut one.body {
+                st.fault = Some((c.index, errno, mode));
+            }
+            let out = run_sim(&one, |ctx, scn| store::run_fault_one(ctx, store_of(scn)));
+            bad = !out.violations.is_empty();
+            merge_out(&mut total, out);
+            if bad {
+                total.pinned = Some(Box::new(one));
+                break;
+            }
+        }
         if bad {
-            total.pinned = Some(Box::new(one));
             break;
         }
     }
